@@ -31,12 +31,26 @@ def _compose_one(args):
         eng.x = x
         for a in spec.requires(x):
             st.assume(a)
+        # the postcondition speaks about normal returns: none of the (biconditional) raise conditions holds
+        for (_n, cond) in spec.raises(x):
+            if cond is None:
+                continue
+            if isinstance(cond, tuple) and cond[0] == "exists_k":
+                st.assume_all_k(lambda k, cond=cond: z3.Not(cond[1](k)))
+            elif isinstance(cond, tuple) and cond[0] == "and_not_exists_k":
+                k = st.add_k("k_wit")
+                st.assume(z3.Or(z3.Not(cond[1]), cond[2](k)))
+            else:
+                st.assume(z3.Not(cond))
         want = spec.result(x)
         label = "%s::%s.execute/composable" % (ci.module.relpath, name)
         m = {"clause": "composable"}
         if want is None:
             out["records"].append({"name": label + ":no-data-result", "status": "unsat", "backend": "syntactic", "time_s": 0, "clause": "composable"})
             return out
+        sat = smt.satisfiable(st.hyps(), rlimit=20000000, timeout_ms=5000)
+        eng.results.append({"name": label + ":vacuity (a normal return is possible under the contract's hypotheses)", "kind": "cover", "backend": "z3", "time_s": 0,
+                            "status": "sat" if sat == "unsat" else "unsat", "clause": "composable", "function": eng.current.key})
         eng.oblige(st, label + ":rank>=1 (a consumer's data precondition)", RANK(want["shape"]) >= 1, kind="lemma", meta=m, assume_after=False)
         if want.get("dtype") is not None:
             eng.oblige(st, label + ":element type is int or float", z3.Or(want["dtype"] == INT, want["dtype"] == FLT), kind="lemma", meta=m, assume_after=False)
